@@ -1,6 +1,1356 @@
-//! C05 -- monitor (to be written)
-use crate::fw::ctx;
+//! C05 -- stabiliser decomposition computes the exact scalar for every driver and mode.
+//!
+//! Events and oracles (E = independent evaluator O2, exact in Z[omega][1/2]):
+//!  (i)   for every closed Clifford+T diagram d and configuration (driver x simp x split x
+//!        mode): `Decomposer::scalar()` == E(d); a panic is a violation;
+//!  (ii)  parallel result (inside a rayon pool of k in {1,2,3,4,8,16} threads, repeated)
+//!        == sequential result;
+//!  (iii) every decomposition step logged by hook H3 (sequential runs, worker-pool runs,
+//!        saved-term runs) satisfies sum_t E(term_t) == E(pre); the same identity for
+//!        `verif_apply_decomp` driven directly with every `Decomp` kind on valid vertex
+//!        lists embedded in generated host graphs;
+//!  (iv)  saved terms of the BSS-type drivers on graph-like diagrams with outputs: every
+//!        `done[i]` is Clifford and sum_i E(done[i]) == E(d) as tensors.
+//!
+//! Thorough tier only: Miri / ThreadSanitizer workloads via `harness/sanitize_c05.sh`.
+
+use crate::fw::{ctx, par_cases, Caught};
+use crate::gen::circuit::{circ_hash, circ_json, gen_circuit, to_quizx, CircParams, PhPool};
+use crate::gen::prng::Rng;
+use crate::gen::tdiag::{self, add_outputs, gen_closed, TFam};
+use crate::oracle::eval::{self, Diag, EvalError, EK, VK};
+use crate::oracle::ring::{r_of_scalar, scalar_is_approx, Num, R};
+use crate::snap::{eval_snap, graph_json, snap, snap_json, vk, Snap, Tens, FLOAT_TOL};
+use quizx::decompose::{
+    verif_apply_decomp, BssTOnlyDriver, BssWithCatsDriver, Decomp, Decomposer, Driver, DynamicTDriver, SherlockDriver, SimpFunc,
+    SpiderCuttingDriver,
+};
+use quizx::graph::{BasisElem, EType, GraphLike, V};
+use quizx::scalar::Scalar4;
+use quizx::verif::{GraphSnap, StepEvent};
+use serde_json::{json, Value};
+use std::collections::hash_map::DefaultHasher;
+use std::collections::{BTreeMap, HashMap, HashSet};
+use std::hash::{Hash, Hasher};
+use std::panic::{catch_unwind, AssertUnwindSafe};
+use std::sync::{Arc, Mutex, Once};
+use std::thread::ThreadId;
+
+// ------------------------------------------------------------------------------------
+// panic capture that also works for panics raised on rayon worker threads
+// ------------------------------------------------------------------------------------
+
+static PANICS: Mutex<Vec<(String, String)>> = Mutex::new(Vec::new());
+static HOOK: Once = Once::new();
+
+/// Wrap the framework's panic hook: additionally remember (message, location) globally,
+/// because a panic inside `pool.install` happens on a pool thread and the framework's
+/// thread-local record is not visible to the thread that catches the re-raised payload.
+fn install_hook() {
+    HOOK.call_once(|| {
+        let prev = std::panic::take_hook();
+        std::panic::set_hook(Box::new(move |info| {
+            let loc = info.location().map(|l| format!("{}:{}", l.file(), l.line())).unwrap_or_default();
+            let msg = payload_msg(info.payload());
+            {
+                let mut p = PANICS.lock().unwrap_or_else(|e| e.into_inner());
+                if p.len() >= 512 {
+                    p.drain(..256);
+                }
+                p.push((msg, loc));
+            }
+            prev(info);
+        }));
+    });
+}
+
+fn payload_msg(p: &(dyn std::any::Any + Send)) -> String {
+    if let Some(s) = p.downcast_ref::<&str>() {
+        s.to_string()
+    } else if let Some(s) = p.downcast_ref::<String>() {
+        s.clone()
+    } else {
+        "<non-string panic>".to_string()
+    }
+}
+
+/// Run code under test; a panic (on this thread or re-raised from a pool thread) is data.
+fn guard<T>(f: impl FnOnce() -> T) -> Result<T, Caught> {
+    match catch_unwind(AssertUnwindSafe(f)) {
+        Ok(v) => Ok(v),
+        Err(p) => {
+            let msg = payload_msg(&*p);
+            let loc = PANICS
+                .lock()
+                .unwrap_or_else(|e| e.into_inner())
+                .iter()
+                .rev()
+                .find(|e| e.0 == msg)
+                .map(|e| e.1.clone())
+                .unwrap_or_default();
+            if loc.contains("harness/src/oracle") || loc.contains("harness/src/gen") || msg.contains("oracle overflow") {
+                Err(Caught::Oracle(format!("{msg} @ {loc}")))
+            } else {
+                Err(Caught::Panic { msg, loc })
+            }
+        }
+    }
+}
+
+// ------------------------------------------------------------------------------------
+// rayon pools (one set per harness worker, leased)
+// ------------------------------------------------------------------------------------
+
+pub const KS: [usize; 6] = [1, 2, 3, 4, 8, 16];
+
+static POOL_THREADS: Mutex<Option<HashSet<ThreadId>>> = Mutex::new(None);
+
+pub struct PoolSet {
+    pools: Vec<(usize, rayon::ThreadPool)>,
+    /// ids of the threads of these pools (filled by the pools' start handlers, i.e. before a
+    /// thread can run any job)
+    tids: Arc<Mutex<HashSet<ThreadId>>>,
+}
+
+impl PoolSet {
+    fn new() -> PoolSet {
+        let tids: Arc<Mutex<HashSet<ThreadId>>> = Arc::new(Mutex::new(HashSet::new()));
+        let pools = KS
+            .iter()
+            .map(|&k| {
+                let mine = tids.clone();
+                let p = rayon::ThreadPoolBuilder::new()
+                    .num_threads(k)
+                    .stack_size(32 << 20)
+                    .thread_name(move |i| format!("c05-pool{k}-{i}"))
+                    .start_handler(move |_| {
+                        let id = std::thread::current().id();
+                        mine.lock().unwrap_or_else(|e| e.into_inner()).insert(id);
+                        let mut g = POOL_THREADS.lock().unwrap_or_else(|e| e.into_inner());
+                        g.get_or_insert_with(HashSet::new).insert(id);
+                    })
+                    .build()
+                    .expect("rayon pool");
+                (k, p)
+            })
+            .collect();
+        PoolSet { pools, tids }
+    }
+    /// this worker's own thread plus the threads of its leased pools
+    fn my_threads(&self) -> HashSet<ThreadId> {
+        let mut s = self.tids.lock().unwrap_or_else(|e| e.into_inner()).clone();
+        s.insert(std::thread::current().id());
+        s
+    }
+    fn get(&self, k: usize) -> &rayon::ThreadPool {
+        &self.pools.iter().find(|p| p.0 == k).expect("pool size").1
+    }
+}
+
+static POOLSETS: Mutex<Vec<PoolSet>> = Mutex::new(Vec::new());
+
+struct Lease(Option<PoolSet>);
+
+impl Lease {
+    fn take() -> Lease {
+        let got = POOLSETS.lock().unwrap_or_else(|e| e.into_inner()).pop();
+        Lease(Some(got.unwrap_or_else(PoolSet::new)))
+    }
+    fn set(&self) -> &PoolSet {
+        self.0.as_ref().unwrap()
+    }
+}
+
+impl Drop for Lease {
+    fn drop(&mut self) {
+        if let Some(p) = self.0.take() {
+            POOLSETS.lock().unwrap_or_else(|e| e.into_inner()).push(p);
+        }
+    }
+}
+
+// ------------------------------------------------------------------------------------
+// configurations
+// ------------------------------------------------------------------------------------
+
+#[derive(Clone, Debug, PartialEq)]
+pub enum Drv {
+    BssT { random: bool },
+    Cats { random: bool },
+    DynT,
+    Sherlock(Vec<usize>),
+    Cut,
+}
+
+impl Drv {
+    pub fn kind(&self) -> &'static str {
+        match self {
+            Drv::BssT { random: false } => "BssTOnly(first)",
+            Drv::BssT { random: true } => "BssTOnly(random)",
+            Drv::Cats { random: false } => "BssWithCats(first)",
+            Drv::Cats { random: true } => "BssWithCats(random)",
+            Drv::DynT => "DynamicT",
+            Drv::Sherlock(_) => "Sherlock",
+            Drv::Cut => "SpiderCutting",
+        }
+    }
+    pub fn label(&self) -> String {
+        match self {
+            Drv::Sherlock(t) => format!("Sherlock{t:?}"),
+            d => d.kind().to_string(),
+        }
+    }
+}
+
+/// `tries` = [single-cut candidates, magic-5 candidates, cat candidates]; the driver
+/// indexes all three entries, and proposes nothing when all are 0, so every variant used
+/// here has three entries and at least one single-cut candidate.
+pub const SHERLOCK_TRIES: [[usize; 3]; 6] = [[1, 1, 1], [2, 2, 2], [10, 10, 10], [3, 0, 0], [1, 0, 2], [2, 3, 0]];
+
+pub fn simp_name(s: SimpFunc) -> &'static str {
+    match s {
+        SimpFunc::NoSimp => "NoSimp",
+        SimpFunc::CliffordSimp => "CliffordSimp",
+        SimpFunc::FullSimp => "FullSimp",
+    }
+}
+
+#[derive(Clone, Debug)]
+pub struct Cfg {
+    pub drv: Drv,
+    pub simp: SimpFunc,
+    pub split: bool,
+}
+
+impl Cfg {
+    fn label(&self) -> String {
+        format!("{}/{}/split={}", self.drv.kind(), simp_name(self.simp), self.split)
+    }
+    fn json(&self) -> Value {
+        json!({"driver": self.drv.label(), "simp": simp_name(self.simp), "split_components": self.split})
+    }
+}
+
+#[derive(Clone, Copy, Debug, PartialEq)]
+pub enum Mode {
+    Seq,
+    Par(usize),
+}
+
+fn go<G: GraphLike, D: Driver>(d: &mut Decomposer<G>, drv: &D, par: bool) {
+    if par {
+        d.decompose_parallel(drv);
+    } else {
+        d.decompose(drv);
+    }
+}
+
+fn decompose_with<G: GraphLike>(d: &mut Decomposer<G>, drv: &Drv, par: bool) {
+    match drv {
+        Drv::BssT { random } => go(d, &BssTOnlyDriver { random_t: *random }, par),
+        Drv::Cats { random } => go(d, &BssWithCatsDriver { random_t: *random }, par),
+        Drv::DynT => go(d, &DynamicTDriver, par),
+        Drv::Sherlock(t) => go(d, &SherlockDriver { tries: t.clone() }, par),
+        Drv::Cut => go(d, &SpiderCuttingDriver, par),
+    }
+}
+
+fn run_once<G: GraphLike>(g: &G, cfg: &Cfg, mode: Mode, pools: &PoolSet) -> Result<Scalar4, Caught> {
+    guard(|| {
+        let mut d = Decomposer::new(g);
+        d.with_simp(cfg.simp).with_split_graphs_components(cfg.split);
+        match mode {
+            Mode::Seq => decompose_with(&mut d, &cfg.drv, false),
+            Mode::Par(k) => pools.get(k).install(|| decompose_with(&mut d, &cfg.drv, true)),
+        }
+        d.scalar()
+    })
+}
+
+// ------------------------------------------------------------------------------------
+// values
+// ------------------------------------------------------------------------------------
+
+fn scalar_matches(s: &Scalar4, expected: &Tens) -> bool {
+    match expected {
+        Tens::Exact(v) if !scalar_is_approx(s) => v.len() == 1 && r_of_scalar(s) == v[0],
+        _ => eval::close(&[r_of_scalar(s).to_cf()], &expected.to_float(), FLOAT_TOL),
+    }
+}
+
+fn scalars_equal(a: &Scalar4, b: &Scalar4) -> bool {
+    if !scalar_is_approx(a) && !scalar_is_approx(b) {
+        r_of_scalar(a) == r_of_scalar(b)
+    } else {
+        eval::close(&[r_of_scalar(a).to_cf()], &[r_of_scalar(b).to_cf()], FLOAT_TOL)
+    }
+}
+
+fn scalar_json(s: &Scalar4) -> Value {
+    let r = r_of_scalar(s);
+    let c = r.to_cf();
+    json!({"exact": format!("{r}"), "approx_flag": scalar_is_approx(s), "float": format!("{:.12}{:+.12}i", c.re, c.im)})
+}
+
+fn tens_json(t: &Tens) -> Value {
+    let mut v = t.brief();
+    if let Tens::Exact(x) = t {
+        if x.len() <= 16 {
+            v["entries_exact"] = json!(x.iter().map(|r| format!("{r}")).collect::<Vec<_>>());
+        }
+    }
+    v
+}
+
+fn tens_sum(ts: &[Tens]) -> Option<Tens> {
+    let n = ts.first()?.len();
+    if ts.iter().any(|t| t.len() != n) {
+        return None;
+    }
+    if ts.iter().all(|t| t.is_exact()) {
+        let mut acc = vec![R::zero(); n];
+        for t in ts {
+            if let Tens::Exact(v) = t {
+                for (a, x) in acc.iter_mut().zip(v.iter()) {
+                    *a = a.add(x);
+                }
+            }
+        }
+        Some(Tens::Exact(acc))
+    } else {
+        let mut acc = vec![crate::oracle::ring::Cf::new(0.0, 0.0); n];
+        for t in ts {
+            for (a, x) in acc.iter_mut().zip(t.to_float().iter()) {
+                *a += x;
+            }
+        }
+        Some(Tens::Float(acc))
+    }
+}
+
+// ------------------------------------------------------------------------------------
+// step log (hook H3)
+// ------------------------------------------------------------------------------------
+
+#[derive(Default)]
+struct KindStat {
+    logged: u64,
+    distinct_checked: u64,
+    embedded: u64,
+    open_pre: u64,
+    on_pool_threads: u64,
+    threads: HashSet<ThreadId>,
+    max_pre_spiders: usize,
+}
+
+#[derive(Default)]
+struct StepStats {
+    kinds: BTreeMap<String, KindStat>,
+    /// verdict per distinct event (hash of decomp + replaced diagram + terms)
+    seen: HashMap<u64, Seen>,
+    all_threads: HashSet<ThreadId>,
+}
+
+enum Seen {
+    Pending,
+    /// None = identity holds; Some(signature) = violation reported under that signature
+    Done(Option<String>),
+}
+
+static STEPS: Mutex<Option<StepStats>> = Mutex::new(None);
+
+fn with_steps<T>(f: impl FnOnce(&mut StepStats) -> T) -> T {
+    let mut g = STEPS.lock().unwrap_or_else(|e| e.into_inner());
+    f(g.get_or_insert_with(StepStats::default))
+}
+
+/// GraphSnap (hook type) -> neutral snapshot for the independent evaluator
+pub fn snap_of_graphsnap(gs: &GraphSnap) -> Result<Snap, String> {
+    let mut verts = vec![];
+    for &(v, t, p) in &gs.vertices {
+        let k = vk(t).ok_or_else(|| format!("vertex {v} has unsupported kind {t:?}"))?;
+        let r = p.to_rational();
+        verts.push((v, k, *r.numer(), *r.denom()));
+    }
+    verts.sort();
+    let mut edges = vec![];
+    for &(s, t, et) in &gs.edges {
+        let k = match et {
+            EType::N => EK::N,
+            EType::H => EK::H,
+            other => return Err(format!("edge ({s},{t}) has unsupported kind {other:?}")),
+        };
+        edges.push((s.min(t), s.max(t), k));
+    }
+    edges.sort();
+    Ok(Snap {
+        diag: Diag { verts, edges, inputs: gs.inputs.clone(), outputs: gs.outputs.clone() },
+        scalar: r_of_scalar(&gs.scalar),
+        scalar_approx: scalar_is_approx(&gs.scalar),
+    })
+}
+
+/// "CatDecomp [3, 0, 1, 2]" -> ("CatDecomp", [3,0,1,2])
+pub fn parse_decomp(s: &str) -> (String, Vec<usize>) {
+    let (kind, rest) = s.split_once(' ').unwrap_or((s, "[]"));
+    let inner = rest.trim().trim_start_matches('[').trim_end_matches(']');
+    let vs = inner.split(',').filter_map(|x| x.trim().parse::<usize>().ok()).collect();
+    (kind.to_string(), vs)
+}
+
+/// evidence key: kind / number of listed vertices (for cats also the hub phase, because the
+/// pi-normalisation is a separate code path)
+fn step_key(kind: &str, vs: &[usize], pre: &Diag) -> String {
+    if kind == "CatDecomp" {
+        let hub = vs.first().and_then(|h| pre.verts.iter().find(|v| v.0 == *h));
+        let hp = match hub {
+            Some(v) if v.2 == 0 => "0",
+            Some(v) if v.2 == 1 && v.3 == 1 => "pi",
+            _ => "other",
+        };
+        format!("{kind}/{}(hub={hp})", vs.len())
+    } else {
+        format!("{kind}/{}", vs.len())
+    }
+}
+
+fn touched<'a>(kind: &str, vs: &'a [usize]) -> &'a [usize] {
+    match kind {
+        "Magic5FromCat" => &vs[..vs.len().min(5)],
+        "TDecomp" if vs.len() >= 2 && vs.len() < 6 => &vs[..2],
+        _ => vs,
+    }
+}
+
+pub enum StepVerdict {
+    Ok,
+    Differs { pre: Tens, sum: Tens },
+    Shape(String),
+    IllFormedPre(String),
+    IllFormedTerm(usize, String),
+    TooWide,
+    NoTerms,
+}
+
+pub fn judge_step(pre: &Snap, terms: &[Snap]) -> StepVerdict {
+    let e_pre = match eval_snap(pre) {
+        Ok(t) => t,
+        Err(EvalError::IllFormed(m)) => return StepVerdict::IllFormedPre(m),
+        Err(EvalError::TooWide(_)) => return StepVerdict::TooWide,
+    };
+    if terms.is_empty() {
+        return StepVerdict::NoTerms;
+    }
+    let mut ets = vec![];
+    for (i, t) in terms.iter().enumerate() {
+        match eval_snap(t) {
+            Ok(x) => {
+                if x.len() != e_pre.len() {
+                    return StepVerdict::Shape(format!("term {i} has {} entries, original {}", x.len(), e_pre.len()));
+                }
+                ets.push(x)
+            }
+            Err(EvalError::IllFormed(m)) => return StepVerdict::IllFormedTerm(i, m),
+            Err(EvalError::TooWide(_)) => return StepVerdict::TooWide,
+        }
+    }
+    let sum = tens_sum(&ets).expect("equal shapes");
+    if sum.same(&e_pre, FLOAT_TOL) {
+        StepVerdict::Ok
+    } else {
+        StepVerdict::Differs { pre: e_pre, sum }
+    }
+}
+
+/// Signature key of a step: the evidence key, except that a failure pinned down by a
+/// structural condition of the replaced diagram carries that condition instead of the size
+/// (one root cause = one signature, whatever the cat size or the way the step was reached).
+fn sig_key(kind: &str, vs: &[usize], pre: &Diag) -> String {
+    if kind == "CatDecomp" && vs.len() >= 2 {
+        let hub_pi = pre.verts.iter().any(|v| v.0 == vs[0] && v.2 == 1 && v.3 == 1);
+        let is_b = |x: usize| pre.verts.iter().any(|v| v.0 == x && v.1 == VK::B);
+        let first_next_to_boundary = pre.edges.iter().any(|e| (e.0 == vs[1] && is_b(e.1)) || (e.1 == vs[1] && is_b(e.0)));
+        if hub_pi && first_next_to_boundary {
+            return "CatDecomp(hub=pi,first-listed-T-neighbour-adjacent-to-boundary)".to_string();
+        }
+    }
+    step_key(kind, vs, pre)
+}
+
+/// Report a step verdict; `origin` = "log" (hook H3) or "direct" (verif_apply_decomp).
+/// Returns the signature when a violation was reported.
+fn report_step(origin: &str, decomp: &str, key: &str, pre: &Snap, terms: &[Snap], v: StepVerdict, family: &str, index: u64) -> Option<String> {
+    let c = ctx();
+    let detail = |what: &str, extra: Value| {
+        json!({"what": what, "origin": origin, "decomp": decomp, "pre": snap_json(pre),
+               "terms": terms.iter().map(snap_json).collect::<Vec<_>>(), "extra": extra})
+    };
+    let (sig, det) = match v {
+        StepVerdict::Ok => return None,
+        StepVerdict::TooWide => {
+            c.skipped();
+            return None;
+        }
+        StepVerdict::Differs { pre: e, sum } => (
+            format!("step|sum-of-terms-differs|{key}"),
+            detail("sum of the terms' values differs from the value of the replaced diagram", json!({"expected_E_pre": tens_json(&e), "observed_sum": tens_json(&sum)})),
+        ),
+        StepVerdict::Shape(m) => (format!("step|term-arity-changed|{key}"), detail("a term has different open wires", json!(m))),
+        StepVerdict::IllFormedPre(m) => (format!("step|ill-formed-diagram-reached|{key}"), detail("diagram handed to the step is ill-formed", json!(m))),
+        StepVerdict::IllFormedTerm(i, m) => (format!("step|ill-formed-term|{key}"), detail("a term is ill-formed", json!({"term": i, "why": m}))),
+        StepVerdict::NoTerms => (format!("step|no-terms|{key}"), detail("step produced no terms", json!(null))),
+    };
+    c.violation(&sig, family, index, det);
+    Some(sig)
+}
+
+fn hash_step(decomp: &str, pre: &Snap, terms: &[Snap]) -> u64 {
+    let mut h = DefaultHasher::new();
+    decomp.hash(&mut h);
+    let mut one = |s: &Snap| {
+        s.diag.hash(&mut h);
+        s.scalar.hash(&mut h);
+        s.scalar_approx.hash(&mut h);
+    };
+    one(pre);
+    for t in terms {
+        one(t);
+    }
+    h.finish()
+}
+
+/// Events drained from the global log, sorted by the thread that produced them. A worker
+/// collects the events of its own thread and of its leased pools after each run; because
+/// draining and sorting happen under this one lock, the events of a finished run are all
+/// in the worker's boxes whoever drained them.
+static MAIL: Mutex<Option<HashMap<ThreadId, Vec<StepEvent>>>> = Mutex::new(None);
+
+fn collect_events(mine: Option<&HashSet<ThreadId>>) -> Vec<StepEvent> {
+    let mut g = MAIL.lock().unwrap_or_else(|e| e.into_inner());
+    let m = g.get_or_insert_with(HashMap::new);
+    for ev in quizx::verif::drain_step_log() {
+        m.entry(ev.thread).or_default().push(ev);
+    }
+    let mut out = vec![];
+    match mine {
+        Some(ids) => {
+            for id in ids {
+                if let Some(v) = m.remove(id) {
+                    out.extend(v);
+                }
+            }
+        }
+        None => {
+            for (_, v) in m.drain() {
+                out.extend(v);
+            }
+        }
+    }
+    out
+}
+
+/// Check the step identity on every event (identical events are evaluated once). Returns
+/// the signatures of the step violations among them.
+fn process_events(evs: Vec<StepEvent>, family: &str, index: u64) -> Vec<String> {
+    let mut viols = vec![];
+    if evs.is_empty() {
+        return viols;
+    }
+    let c = ctx();
+    let pool_threads: HashSet<ThreadId> = POOL_THREADS.lock().unwrap_or_else(|e| e.into_inner()).clone().unwrap_or_default();
+    for ev in evs {
+        let (kind, vs) = parse_decomp(&ev.decomp);
+        let pre = match snap_of_graphsnap(&ev.pre) {
+            Ok(s) => s,
+            Err(m) => {
+                let sig = format!("step|unrepresentable-diagram-reached|{kind}");
+                c.violation(&sig, family, index, json!({"decomp": ev.decomp, "why": m, "pre": format!("{:?}", ev.pre)}));
+                viols.push(sig);
+                continue;
+            }
+        };
+        let mut terms = vec![];
+        let mut bad = None;
+        for (i, t) in ev.terms.iter().enumerate() {
+            match snap_of_graphsnap(t) {
+                Ok(s) => terms.push(s),
+                Err(m) => {
+                    bad = Some((i, m));
+                    break;
+                }
+            }
+        }
+        let key = step_key(&kind, &vs, &pre.diag);
+        if let Some((i, m)) = bad {
+            let sig = format!("step|unrepresentable-term|{key}");
+            c.violation(&sig, family, index, json!({"decomp": ev.decomp, "term": i, "why": m, "pre": snap_json(&pre)}));
+            viols.push(sig);
+            continue;
+        }
+        let tv = touched(&kind, &vs);
+        let embedded = pre.diag.edges.iter().any(|e| tv.contains(&e.0) != tv.contains(&e.1));
+        let open = !pre.diag.inputs.is_empty() || !pre.diag.outputs.is_empty();
+        let h = hash_step(&ev.decomp, &pre, &terms);
+        let known = with_steps(|s| {
+            let k = s.kinds.entry(key.clone()).or_default();
+            k.logged += 1;
+            if embedded {
+                k.embedded += 1;
+            }
+            if open {
+                k.open_pre += 1;
+            }
+            if pool_threads.contains(&ev.thread) {
+                k.on_pool_threads += 1;
+            }
+            k.threads.insert(ev.thread);
+            k.max_pre_spiders = k.max_pre_spiders.max(pre.diag.num_spiders());
+            s.all_threads.insert(ev.thread);
+            match s.seen.get(&h) {
+                Some(Seen::Done(v)) => Some(v.clone()),
+                Some(Seen::Pending) => None, // somebody else is evaluating it right now: evaluate too
+                None => {
+                    s.seen.insert(h, Seen::Pending);
+                    s.kinds.get_mut(&key).unwrap().distinct_checked += 1;
+                    None
+                }
+            }
+        });
+        let verdict: Option<String> = match known {
+            Some(v) => v,
+            None => {
+                let v = judge_step(&pre, &terms);
+                let sig = report_step("log", &ev.decomp, &sig_key(&kind, &vs, &pre.diag), &pre, &terms, v, family, index);
+                with_steps(|s| {
+                    s.seen.insert(h, Seen::Done(sig.clone()));
+                });
+                sig
+            }
+        };
+        if let Some(sig) = verdict {
+            if !viols.contains(&sig) {
+                viols.push(sig);
+            }
+        }
+    }
+    viols
+}
+
+// ------------------------------------------------------------------------------------
+// (i) + (ii): end-to-end on closed diagrams
+// ------------------------------------------------------------------------------------
+
+fn all_drivers(r: &mut Rng) -> Vec<Drv> {
+    vec![
+        Drv::BssT { random: false },
+        Drv::BssT { random: true },
+        Drv::Cats { random: false },
+        Drv::Cats { random: true },
+        Drv::DynT,
+        Drv::Sherlock(r.pick(&SHERLOCK_TRIES).to_vec()),
+        Drv::Cut,
+    ]
+}
+
+fn violation_detail(what: &str, cfg: &Cfg, mode: Mode, desc: &Value, extra: Value) -> Value {
+    json!({"what": what, "config": cfg.json(), "mode": format!("{mode:?}"), "diagram": desc, "extra": extra})
+}
+
+/// Judge one run against E(d). Returns the scalar when the run completed.
+fn judge_run(
+    family: &'static str,
+    index: u64,
+    cfg: &Cfg,
+    mode: Mode,
+    res: Result<Scalar4, Caught>,
+    expected: &Tens,
+    desc: &Value,
+    step_viols: &[String],
+) -> Option<Scalar4> {
+    let c = ctx();
+    let call = if mode == Mode::Seq { "decompose" } else { "decompose_parallel" };
+    match res {
+        Err(Caught::Oracle(m)) => {
+            c.inconclusive("oracle-error", json!({"msg": m}));
+            None
+        }
+        Err(e @ Caught::Budget(_)) => {
+            c.inconclusive("unexpected-budget", json!({"msg": e.text()}));
+            None
+        }
+        Err(e @ Caught::Panic { .. }) => {
+            c.violation(
+                &format!("{call}|panic|{}|{}", cfg.drv.kind(), e.site()),
+                family,
+                index,
+                violation_detail("panic", cfg, mode, desc, json!({"panic": e.text(), "expected": tens_json(expected)})),
+            );
+            None
+        }
+        Ok(s) => {
+            if scalar_is_approx(&s) {
+                c.count("result_flagged_approximate", 1);
+            }
+            if !scalar_matches(&s, expected) {
+                if step_viols.is_empty() {
+                    c.violation(
+                        &format!("{call}|wrong-scalar|{}", cfg.label()),
+                        family,
+                        index,
+                        violation_detail("scalar() differs from the value of the diagram", cfg, mode, desc, json!({"expected": tens_json(expected), "observed": scalar_json(&s)})),
+                    );
+                } else {
+                    // one of this run's own steps already violated the step identity and was
+                    // reported under its own signature: same root cause, not reported twice
+                    c.count("wrong_results_explained_by_a_step_violation_of_the_same_run", 1);
+                }
+            }
+            Some(s)
+        }
+    }
+}
+
+#[derive(Clone, Copy)]
+struct Plan {
+    /// probability that a configuration gets the full thread sweep (all k, `reps` each)
+    full_sweep: f64,
+    reps: usize,
+}
+
+/// Run all configurations on one closed diagram. Returns the number of runs executed.
+fn check_closed<G: GraphLike>(family: &'static str, index: u64, r: &mut Rng, g: &G, desc: &Value, simps: &[SimpFunc], plan: Plan, tcount: usize) -> u64 {
+    let c = ctx();
+    let expected = match crate::snap::eval_graph(g) {
+        Ok(t) => t,
+        Err(EvalError::TooWide(_)) => {
+            c.skipped();
+            return 0;
+        }
+        Err(EvalError::IllFormed(m)) => {
+            c.harness_error(&format!("generator produced ill-formed diagram in {family}#{index}: {m}"));
+            return 0;
+        }
+    };
+    if expected.len() != 1 {
+        c.harness_error(&format!("generator produced a non-closed diagram in {family}#{index}"));
+        return 0;
+    }
+    let lease = Lease::take();
+    let pools = lease.set();
+    let mut runs = 0u64;
+    for drv in all_drivers(r) {
+        for &simp in simps {
+            for split in [false, true] {
+                if c.out_of_time() {
+                    return runs;
+                }
+                let cfg = Cfg { drv: drv.clone(), simp, split };
+                // exponential drivers on large T-counts get a lighter sweep
+                let heavy = tcount > 9 && matches!(cfg.drv, Drv::Cut | Drv::Sherlock(_) | Drv::DynT);
+                let res = run_once(g, &cfg, Mode::Seq, pools);
+                let sv_seq = process_events(collect_events(Some(&pools.my_threads())), family, index);
+                let seq = judge_run(family, index, &cfg, Mode::Seq, res, &expected, desc, &sv_seq);
+                runs += 1;
+                c.count(&format!("config:{}/seq", cfg.label()), 1);
+                let mut par_modes: Vec<usize> = vec![];
+                if !heavy && r.chance(plan.full_sweep) {
+                    for &k in &KS {
+                        for _ in 0..plan.reps {
+                            par_modes.push(k);
+                        }
+                    }
+                } else {
+                    par_modes.push(*r.pick(&KS));
+                }
+                for k in par_modes {
+                    let mode = Mode::Par(k);
+                    let res = run_once(g, &cfg, mode, pools);
+                    let sv_par = process_events(collect_events(Some(&pools.my_threads())), family, index);
+                    let res = judge_run(family, index, &cfg, mode, res, &expected, desc, &sv_par);
+                    runs += 1;
+                    c.count(&format!("config:{}/par", cfg.label()), 1);
+                    c.count(&format!("par_runs:k={k:02}"), 1);
+                    if let (Some(p), Some(s)) = (res, seq) {
+                        if !scalars_equal(&p, &s) && sv_seq.is_empty() && sv_par.is_empty() {
+                            c.violation(
+                                &format!("decompose_parallel|differs-from-sequential|{}", cfg.label()),
+                                family,
+                                index,
+                                violation_detail(
+                                    "parallel result differs from sequential result",
+                                    &cfg,
+                                    mode,
+                                    desc,
+                                    json!({"sequential": scalar_json(&s), "parallel": scalar_json(&p), "expected": tens_json(&expected)}),
+                                ),
+                            );
+                        }
+                    }
+                }
+            }
+        }
+    }
+    runs
+}
+
+fn closed_case(family: &'static str, fam: TFam, index: u64, r: &mut Rng, max_t: usize, max_sp: usize, plan: Plan) {
+    let c = ctx();
+    let d = gen_closed(r, fam, max_t, max_sp);
+    let desc = d.to_json();
+    let tc = tdiag::tcount(&d);
+    let all = [SimpFunc::NoSimp, SimpFunc::CliffordSimp, SimpFunc::FullSimp];
+    // every fourth diagram in the hash backend
+    let runs = if index % 4 == 3 {
+        let (g, _) = d.build::<quizx::hash_graph::Graph>(None);
+        c.count("backend:hash", 1);
+        check_closed(family, index, r, &g, &desc, &all, plan, tc)
+    } else {
+        let scr = if r.chance(0.3) { Some(r.next_u64()) } else { None };
+        let (g, _) = d.build::<quizx::vec_graph::Graph>(scr);
+        c.count("backend:vec", 1);
+        check_closed(family, index, r, &g, &desc, &all, plan, tc)
+    };
+    if runs == 0 {
+        return;
+    }
+    let nontrivial = tc >= 1 && d.num_spiders() >= 2;
+    c.case(family, if nontrivial { Some(d.hash()) } else { None });
+    c.evals(runs.saturating_sub(1));
+    c.count(&format!("tcount:{tc:02}"), 1);
+    c.maximum("max_tcount", tc as u64);
+    c.sample_n(5, || json!({"family": family, "index": index, "diagram": desc, "tcount": tc, "runs": runs}));
+}
+
+/// plugged Clifford+T circuits: only with a simplification level enabled
+fn circuit_case(family: &'static str, index: u64, r: &mut Rng, max_t: usize, max_q: usize, max_d: usize, plan: Plan) {
+    let c = ctx();
+    let mut depth = max_d;
+    for _attempt in 0..6 {
+        let p = CircParams {
+            min_qubits: 1,
+            max_qubits: max_q,
+            max_depth: depth,
+            pool: PhPool::Exact,
+            clifford_t: true,
+            rotations: true,
+            swap: true,
+            xcx: true,
+            ccz: max_t >= 7 && r.chance(0.2),
+            pp: true,
+            ancilla: false,
+            measure: false,
+        };
+        let circ = gen_circuit(r, &p);
+        let qc = to_quizx(&circ);
+        let states = [BasisElem::Z0, BasisElem::Z1, BasisElem::X0, BasisElem::X1];
+        let ins: Vec<BasisElem> = (0..circ.n).map(|_| *r.pick(&states)).collect();
+        let outs: Vec<BasisElem> = (0..circ.n).map(|_| *r.pick(&states)).collect();
+        // quizx's own translation/plugging is only an input generator here: the oracle
+        // evaluates the resulting closed diagram itself
+        let built = guard(|| {
+            let mut g: quizx::vec_graph::Graph = qc.to_graph();
+            g.plug_inputs(&ins);
+            g.plug_outputs(&outs);
+            g
+        });
+        let g = match built {
+            Ok(g) => g,
+            Err(_) => {
+                c.skipped();
+                return;
+            }
+        };
+        let s = match snap(&g) {
+            Ok(s) => s,
+            Err(_) => {
+                c.skipped();
+                return;
+            }
+        };
+        let tc = s.diag.verts.iter().filter(|v| v.1 != VK::B && v.3 == 4).count();
+        if tc > max_t || !s.diag.all_phases_pi4() {
+            depth = (depth / 2).max(2);
+            continue;
+        }
+        let desc = json!({"circuit": circ_json(&circ), "plug_inputs": format!("{ins:?}"), "plug_outputs": format!("{outs:?}"), "graph": graph_json(&g)});
+        let simps = [SimpFunc::CliffordSimp, SimpFunc::FullSimp];
+        let runs = check_closed(family, index, r, &g, &desc, &simps, plan, tc);
+        if runs == 0 {
+            return;
+        }
+        let h = circ_hash(&circ) ^ crate::gen::prng::hash_str(&format!("{ins:?}{outs:?}"));
+        c.case(family, if tc >= 1 { Some(h) } else { None });
+        c.evals(runs.saturating_sub(1));
+        c.count(&format!("tcount:{tc:02}"), 1);
+        c.sample_n(6, || json!({"family": family, "index": index, "case": desc, "tcount": tc, "runs": runs}));
+        return;
+    }
+    c.skipped();
+}
+
+// ------------------------------------------------------------------------------------
+// (iii-b): direct drive of verif_apply_decomp
+// ------------------------------------------------------------------------------------
+
+fn pick_distinct(r: &mut Rng, xs: &[V], k: usize) -> Vec<V> {
+    let mut v = xs.to_vec();
+    r.shuffle(&mut v);
+    v.truncate(k);
+    v
+}
+
+/// Candidate (Decomp, tag) pairs valid on g. `closed` hosts get every kind; hosts with
+/// outputs only the kinds the BSS-type drivers use.
+fn direct_candidates<G: GraphLike>(r: &mut Rng, g: &G, closed: bool) -> Vec<(Decomp, &'static str)> {
+    use quizx::graph::VType;
+    let spiders: Vec<V> = g.vertices().filter(|&v| g.vertex_type(v) == VType::Z).collect();
+    let ts: Vec<V> = spiders.iter().copied().filter(|&v| *g.phase(v).to_rational().denom() == 4).collect();
+    let mut out: Vec<(Decomp, &'static str)> = vec![];
+    if !ts.is_empty() {
+        out.push((Decomp::SingleDecomp(pick_distinct(r, &ts, 1)), "t"));
+        let n = 1 + r.below(ts.len().min(6));
+        out.push((Decomp::TDecomp(pick_distinct(r, &ts, n)), "t"));
+        if closed {
+            out.push((Decomp::SpiderCuttingDecomp(pick_distinct(r, &ts, 1)), "t"));
+        }
+    }
+    if ts.len() >= 2 {
+        out.push((Decomp::SymDecomp(pick_distinct(r, &ts, 2)), "t"));
+    }
+    if ts.len() >= 5 {
+        out.push((Decomp::Magic5FromCat(pick_distinct(r, &ts, 5)), "t"));
+    }
+    if ts.len() >= 6 {
+        out.push((Decomp::BssDecomp(pick_distinct(r, &ts, 6)), "t"));
+        out.push((Decomp::TDecomp(pick_distinct(r, &ts, 6)), "t"));
+    }
+    // cats: Pauli hub joined by H edges to 3..=6 T spiders and to nothing else
+    for &h in &spiders {
+        let ph = g.phase(h).to_rational();
+        if *ph.denom() != 1 {
+            continue;
+        }
+        let mut nb = g.neighbor_vec(h);
+        if nb.len() < 3 || nb.len() > 6 {
+            continue;
+        }
+        if nb.iter().all(|&n| g.vertex_type(n) == VType::Z && *g.phase(n).to_rational().denom() == 4 && g.edge_type(h, n) == EType::H) {
+            r.shuffle(&mut nb);
+            let mut l = vec![h];
+            l.extend(nb);
+            out.push((Decomp::CatDecomp(l), "cat"));
+        }
+    }
+    if closed {
+        // T-pair: vs0 (non-empty) completely joined by H edges to the pair {v, w}
+        let mut found_shaped = false;
+        let mut found_general = false;
+        let mut order = spiders.clone();
+        r.shuffle(&mut order);
+        'outer: for &v in &order {
+            for &w in &order {
+                if v == w {
+                    continue;
+                }
+                let common: Vec<V> = g
+                    .neighbor_vec(v)
+                    .into_iter()
+                    .filter(|&m| m != w && g.vertex_type(m) == VType::Z && g.connected(m, w) && g.edge_type(m, v) == EType::H && g.edge_type(m, w) == EType::H)
+                    .collect();
+                if common.is_empty() {
+                    continue;
+                }
+                let is_t = |x: V| *g.phase(x).to_rational().denom() == 4;
+                let shaped: Vec<V> = common.iter().copied().filter(|&m| is_t(m) && g.degree(m) == 2).collect();
+                if !found_shaped && is_t(v) && !is_t(w) && !shaped.is_empty() {
+                    // the list DynamicTDriver would build: all such common vertices, then v, w
+                    let mut l = shaped.clone();
+                    l.push(v);
+                    l.push(w);
+                    out.push((Decomp::TPairDecomp(l), "driver-shaped"));
+                    found_shaped = true;
+                }
+                if !found_general {
+                    let k = 1 + r.below(common.len());
+                    let mut l = pick_distinct(r, &common, k);
+                    l.push(v);
+                    l.push(w);
+                    out.push((Decomp::TPairDecomp(l), "general"));
+                    found_general = true;
+                }
+                if found_shaped && found_general {
+                    break 'outer;
+                }
+            }
+        }
+        // single cut / spider cutting on a spider of any k*pi/4 phase (the code accepts
+        // denominators 1, 2, 4 explicitly)
+        if !spiders.is_empty() {
+            out.push((Decomp::SingleDecomp(pick_distinct(r, &spiders, 1)), "any-phase"));
+            out.push((Decomp::SpiderCuttingDecomp(pick_distinct(r, &spiders, 1)), "any-phase"));
+        }
+    }
+    out
+}
+
+fn direct_case(family: &'static str, index: u64, r: &mut Rng, max_t: usize, max_sp: usize) {
+    let c = ctx();
+    let fam = *r.pick(&tdiag::ALL_FAMS);
+    let mut d = gen_closed(r, fam, max_t, max_sp);
+    let closed = !(r.chance(0.35) && add_outputs(&mut d, r, 3));
+    let desc = d.to_json();
+    let scr = if r.chance(0.3) { Some(r.next_u64()) } else { None };
+    let (g, _) = d.build::<quizx::vec_graph::Graph>(scr);
+    let pre = match snap(&g) {
+        Ok(s) => s,
+        Err(m) => {
+            c.harness_error(&format!("unsnappable generated host: {m}"));
+            return;
+        }
+    };
+    let cands = direct_candidates(r, &g, closed);
+    let mut n = 0u64;
+    for (dec, tag) in cands {
+        let (kind, vs) = parse_decomp(&dec.to_string());
+        let key = format!("{}[{tag}]", step_key(&kind, &vs, &pre.diag));
+        let res = guard(|| verif_apply_decomp(&g, &dec));
+        n += 1;
+        c.count(&format!("direct:{key}"), 1);
+        match res {
+            Err(Caught::Panic { msg, loc }) => {
+                let e = Caught::Panic { msg, loc };
+                c.violation(
+                    &format!("verif_apply_decomp|panic|{key}|{}", e.site()),
+                    family,
+                    index,
+                    json!({"what": "panic in a decomposition step on a valid vertex list", "decomp": dec.to_string(), "host": desc, "pre": snap_json(&pre), "panic": e.text()}),
+                );
+            }
+            Err(e) => c.inconclusive("oracle-error", json!({"msg": e.text()})),
+            Ok(terms) => {
+                let mut ts = vec![];
+                let mut ok = true;
+                for (i, t) in terms.iter().enumerate() {
+                    match snap(t) {
+                        Ok(s) => ts.push(s),
+                        Err(m) => {
+                            ok = false;
+                            c.violation(
+                                &format!("step|unrepresentable-term|{key}"),
+                                family,
+                                index,
+                                json!({"decomp": dec.to_string(), "term": i, "why": m, "host": desc}),
+                            );
+                            break;
+                        }
+                    }
+                }
+                if ok {
+                    let v = judge_step(&pre, &ts);
+                    report_step("direct", &dec.to_string(), &sig_key(&kind, &vs, &pre.diag), &pre, &ts, v, family, index);
+                }
+            }
+        }
+    }
+    if n > 0 {
+        let tc = tdiag::tcount(&d);
+        c.case(family, if tc >= 1 { Some(d.hash() ^ 0xD1) } else { None });
+        c.evals(n - 1);
+    }
+}
+
+// ------------------------------------------------------------------------------------
+// (iv): saved terms
+// ------------------------------------------------------------------------------------
+
+fn saved_case(family: &'static str, index: u64, r: &mut Rng, max_t: usize, max_sp: usize) {
+    let c = ctx();
+    let fam = *r.pick(&tdiag::ALL_FAMS);
+    let mut d = gen_closed(r, fam, max_t, max_sp);
+    if !add_outputs(&mut d, r, 3) {
+        c.skipped();
+        return;
+    }
+    let desc = d.to_json();
+    let scr = if r.chance(0.3) { Some(r.next_u64()) } else { None };
+    let (g, _) = d.build::<quizx::vec_graph::Graph>(scr);
+    let expected = match crate::snap::eval_graph(&g) {
+        Ok(t) => t,
+        Err(EvalError::TooWide(_)) => {
+            c.skipped();
+            return;
+        }
+        Err(EvalError::IllFormed(m)) => {
+            c.harness_error(&format!("generator produced ill-formed diagram in {family}#{index}: {m}"));
+            return;
+        }
+    };
+    let h_edges = d.edges.iter().any(|e| e.2 == EK::H && (d.verts[e.0].kind == VK::B || d.verts[e.1].kind == VK::B));
+    let drivers = [Drv::BssT { random: false }, Drv::BssT { random: true }, Drv::Cats { random: false }, Drv::Cats { random: true }];
+    let mut runs = 0u64;
+    for drv in drivers.iter() {
+        for simp in [SimpFunc::NoSimp, SimpFunc::CliffordSimp, SimpFunc::FullSimp] {
+            let cfg = Cfg { drv: drv.clone(), simp, split: false };
+            let res = guard(|| {
+                let mut dc = Decomposer::new(&g);
+                dc.with_simp(simp).with_save(true);
+                decompose_with(&mut dc, drv, false);
+                (dc.done.clone(), dc.nterms)
+            });
+            let me: HashSet<ThreadId> = [std::thread::current().id()].into_iter().collect();
+            let step_viols = process_events(collect_events(Some(&me)), family, index);
+            runs += 1;
+            c.count(&format!("saved:{}/{}", drv.kind(), simp_name(simp)), 1);
+            let det = |what: &str, extra: Value| json!({"what": what, "config": cfg.json(), "with_save": true, "diagram": desc, "extra": extra});
+            match res {
+                Err(Caught::Panic { msg, loc }) => {
+                    let e = Caught::Panic { msg, loc };
+                    c.violation(&format!("saved-terms|panic|{}|{}", drv.kind(), e.site()), family, index, det("panic", json!(e.text())));
+                }
+                Err(e) => c.inconclusive("oracle-error", json!({"msg": e.text()})),
+                Ok((done, _nterms)) => {
+                    c.count("saved:terms_total", done.len() as u64);
+                    c.maximum("saved:max_terms_in_one_run", done.len() as u64);
+                    let mut ets = vec![];
+                    let mut ok = true;
+                    for (i, t) in done.iter().enumerate() {
+                        let s = match snap(t) {
+                            Ok(s) => s,
+                            Err(m) => {
+                                c.violation(&format!("saved-terms|unrepresentable-term|{}", drv.kind()), family, index, det("saved term not representable", json!({"term": i, "why": m})));
+                                ok = false;
+                                break;
+                            }
+                        };
+                        let nt = s.diag.verts.iter().filter(|v| v.1 != VK::B && !(v.3 == 1 || v.3 == 2)).count();
+                        if nt != 0 {
+                            c.violation(
+                                &format!("saved-terms|term-not-clifford|{}/{}", drv.kind(), simp_name(simp)),
+                                family,
+                                index,
+                                det("saved term has non-Clifford phases", json!({"term": i, "non_clifford_spiders": nt, "term_graph": snap_json(&s)})),
+                            );
+                            ok = false;
+                            break;
+                        }
+                        match eval_snap(&s) {
+                            Ok(t) => {
+                                if t.len() != expected.len() {
+                                    c.violation(
+                                        &format!("saved-terms|term-arity-changed|{}/{}", drv.kind(), simp_name(simp)),
+                                        family,
+                                        index,
+                                        det("saved term has different open wires", json!({"term": i, "term_graph": snap_json(&s)})),
+                                    );
+                                    ok = false;
+                                    break;
+                                }
+                                ets.push(t)
+                            }
+                            Err(EvalError::IllFormed(m)) => {
+                                c.violation(
+                                    &format!("saved-terms|ill-formed-term|{}/{}", drv.kind(), simp_name(simp)),
+                                    family,
+                                    index,
+                                    det("saved term is ill-formed", json!({"term": i, "why": m, "term_graph": snap_json(&s)})),
+                                );
+                                ok = false;
+                                break;
+                            }
+                            Err(EvalError::TooWide(_)) => {
+                                c.skipped();
+                                ok = false;
+                                break;
+                            }
+                        }
+                    }
+                    if ok {
+                        let sum = if ets.is_empty() {
+                            // no terms: the sum is the zero map
+                            match &expected {
+                                Tens::Exact(v) => Tens::Exact(vec![R::zero(); v.len()]),
+                                Tens::Float(v) => Tens::Float(vec![crate::oracle::ring::Cf::new(0.0, 0.0); v.len()]),
+                            }
+                        } else {
+                            tens_sum(&ets).expect("equal shapes")
+                        };
+                        if !sum.same(&expected, FLOAT_TOL) && !step_viols.is_empty() {
+                            // same root cause as the step violation already reported for this run
+                            c.count("saved:wrong_sums_explained_by_a_step_violation_of_the_same_run", 1);
+                        } else if !sum.same(&expected, FLOAT_TOL) {
+                            c.violation(
+                                &format!("saved-terms|sum-differs|{}/{}", drv.kind(), simp_name(simp)),
+                                family,
+                                index,
+                                det(
+                                    "sum of the saved Clifford terms differs from the original map",
+                                    json!({"expected": tens_json(&expected), "observed_sum": tens_json(&sum), "num_terms": done.len(), "boundary_h_edges": h_edges}),
+                                ),
+                            );
+                        }
+                    }
+                }
+            }
+        }
+    }
+    let tc = tdiag::tcount(&d);
+    c.case(family, if tc >= 1 { Some(d.hash() ^ 0x5A) } else { None });
+    c.evals(runs.saturating_sub(1));
+    c.count("saved:cases", 1);
+    if h_edges {
+        c.count("saved:cases_with_hadamard_boundary_edge", 1);
+    }
+    c.count(&format!("saved:outputs={}", d.outputs.len()), 1);
+}
+
+// ------------------------------------------------------------------------------------
+// self-test of the step checker (no quizx decomposition code involved)
+// ------------------------------------------------------------------------------------
+
+fn self_test() -> Result<(), String> {
+    // Z(pi/4) isolated = 1 + omega. Split by hand: Z(0)-N-X(0) * 1/sqrt2  +  omega * Z(0)-N-X(pi) * 1/sqrt2
+    let pre = Snap { diag: Diag { verts: vec![(0, VK::Z, 1, 4)], edges: vec![], inputs: vec![], outputs: vec![] }, scalar: R::one(), scalar_approx: false };
+    let t0 = Snap {
+        diag: Diag { verts: vec![(0, VK::Z, 0, 1), (1, VK::X, 0, 1)], edges: vec![(0, 1, EK::N)], inputs: vec![], outputs: vec![] },
+        scalar: R::sqrt2_pow(-1),
+        scalar_approx: false,
+    };
+    let t1 = Snap {
+        diag: Diag { verts: vec![(0, VK::Z, 0, 1), (1, VK::X, 1, 1)], edges: vec![(0, 1, EK::N)], inputs: vec![], outputs: vec![] },
+        scalar: R::sqrt2_pow(-1).mul(&R::omega_pow(1)),
+        scalar_approx: false,
+    };
+    if !matches!(judge_step(&pre, &[t0.clone(), t1.clone()]), StepVerdict::Ok) {
+        return Err("hand-made single cut rejected".into());
+    }
+    let mut bad = t1.clone();
+    bad.scalar = R::sqrt2_pow(-1);
+    if !matches!(judge_step(&pre, &[t0, bad]), StepVerdict::Differs { .. }) {
+        return Err("wrong term scalar not detected".into());
+    }
+    let (k, v) = parse_decomp("CatDecomp [3, 0, 12]");
+    if k != "CatDecomp" || v != vec![3, 0, 12] {
+        return Err("parse_decomp".into());
+    }
+    let (k, v) = parse_decomp("SingleDecomp []");
+    if k != "SingleDecomp" || !v.is_empty() {
+        return Err("parse_decomp empty".into());
+    }
+    Ok(())
+}
+
+// ------------------------------------------------------------------------------------
+// sanitizers (thorough tier)
+// ------------------------------------------------------------------------------------
+
+fn run_sanitizers() -> Value {
+    let out = "/verif/harness/target/sanitize_c05.json";
+    let _ = std::fs::create_dir_all("/verif/harness/target");
+    let _ = std::fs::remove_file(out);
+    let st = std::process::Command::new("bash").arg("/verif/harness/sanitize_c05.sh").arg(out).stdout(std::process::Stdio::null()).stderr(std::process::Stdio::null()).status();
+    match st {
+        Err(e) => json!({"status": "inconclusive", "reason": format!("cannot run sanitize_c05.sh: {e}")}),
+        Ok(_) => match std::fs::read_to_string(out).ok().and_then(|t| serde_json::from_str::<Value>(&t).ok()) {
+            Some(v) => v,
+            None => json!({"status": "inconclusive", "reason": "sanitize_c05.sh wrote no readable summary"}),
+        },
+    }
+}
+
+fn judge_sanitizers(v: &Value) {
+    let c = ctx();
+    for tool in ["miri", "tsan"] {
+        let Some(t) = v.get(tool) else {
+            c.inconclusive(&format!("sanitizer-{tool}"), json!({"reason": "no result", "summary": v}));
+            continue;
+        };
+        match t.get("status").and_then(|s| s.as_str()).unwrap_or("inconclusive") {
+            "clean" => c.count(&format!("sanitizer:{tool}:clean"), 1),
+            "violation" => c.violation(
+                &format!("sanitizer|{tool}|{}", t.get("class").and_then(|s| s.as_str()).unwrap_or("report-in-quizx-frame")),
+                "sanitizers",
+                0,
+                json!({"what": "sanitizer report attributable to quizx (or result mismatch under the sanitizer)", "summary": t}),
+            ),
+            _ => c.inconclusive(&format!("sanitizer-{tool}"), t.clone()),
+        }
+    }
+}
+
+// ------------------------------------------------------------------------------------
+// run
+// ------------------------------------------------------------------------------------
 
 pub fn run() {
-    ctx().harness_error("C05 monitor not implemented yet");
+    let c = ctx();
+    if let Err(e) = self_test() {
+        c.harness_error(&format!("C05 step-checker self-test failed: {e}"));
+        return;
+    }
+    install_hook();
+    quizx::verif::drain_step_log();
+    quizx::verif::set_step_log(true);
+    let t = c.tier;
+    c.set_rule(
+        "cases = generated diagrams; closed families run 7 drivers x simp levels x split on/off, each sequentially and in parallel inside rayon pools (evaluations counts single decomposer runs / direct step applications); a closed or open diagram is non-trivial when it has T-count >= 1 (and >= 2 spiders for the generated graph-like families); distinct = distinct diagram descriptions (64-bit hash)",
+    );
+    c.assume("independent evaluator O2 (harness/src/oracle/eval.rs) and exact ring O1 are correct (self-tested at start)");
+    c.assume("Sherlock `tries` always has three entries with tries[0] >= 1 (the driver indexes tries[0..3] and proposes no step when every entry is 0)");
+    c.assume("schedules are sampled: thread counts {1,2,3,4,8,16} x repetitions natively; Miri/TSan only in the thorough tier");
+    c.assume("identical step events (same diagram, same Decomp, same terms) are evaluated once; all are counted");
+
+    // sanitizers run beside the main workload in the thorough tier
+    let san = if t == crate::fw::Tier::Thorough && c.replay.is_none() && std::env::var("VERIF_SKIP_SANITIZERS").is_err() {
+        Some(std::thread::spawn(run_sanitizers))
+    } else {
+        None
+    };
+
+    let (max_t, max_sp) = t.pick((7usize, 9usize), (12usize, 13usize));
+    let plan = t.pick(Plan { full_sweep: 0.15, reps: 2 }, Plan { full_sweep: 0.25, reps: 3 });
+    let n = t.pick(110usize, 700usize);
+
+    par_cases("closed-random", n, move |r, i| closed_case("closed-random", TFam::Random, i, r, max_t, max_sp, plan));
+    par_cases("closed-cat-rich", n, move |r, i| closed_case("closed-cat-rich", TFam::Cats, i, r, max_t, max_sp, plan));
+    par_cases("closed-gadget-rich", n, move |r, i| closed_case("closed-gadget-rich", TFam::Gadgets, i, r, max_t, max_sp, plan));
+    par_cases("closed-tpair-rich", n, move |r, i| closed_case("closed-tpair-rich", TFam::TPair, i, r, max_t, max_sp, plan));
+    par_cases("closed-t-only", n, move |r, i| closed_case("closed-t-only", TFam::TOnly, i, r, max_t, max_sp, plan));
+    par_cases("closed-multi-component", n, move |r, i| closed_case("closed-multi-component", TFam::Multi, i, r, max_t, max_sp, plan));
+    let (cq, cd) = t.pick((4usize, 24usize), (5usize, 40usize));
+    par_cases("circuit-plugged", n, move |r, i| circuit_case("circuit-plugged", i, r, max_t, cq, cd, plan));
+    process_events(collect_events(None), "closed-families(leftover)", 0);
+
+    let nd = t.pick(4000usize, 60_000usize);
+    par_cases("direct-steps", nd, move |r, i| direct_case("direct-steps", i, r, max_t.max(8), max_sp));
+
+    let ns = t.pick(500usize, 6000usize);
+    par_cases("saved-terms", ns, move |r, i| saved_case("saved-terms", i, r, max_t.min(9), max_sp));
+    process_events(collect_events(None), "saved-terms(leftover)", 0);
+    quizx::verif::set_step_log(false);
+
+    // evidence: steps per kind
+    let steps = with_steps(|s| {
+        let mut m = serde_json::Map::new();
+        for (k, st) in s.kinds.iter() {
+            m.insert(
+                k.clone(),
+                json!({"logged": st.logged, "distinct_evaluated": st.distinct_checked, "embedded_in_host": st.embedded, "with_open_wires": st.open_pre,
+                       "on_pool_threads": st.on_pool_threads, "distinct_threads": st.threads.len(), "max_spiders_in_replaced_diagram": st.max_pre_spiders}),
+            );
+        }
+        (Value::Object(m), s.all_threads.len(), s.kinds.values().map(|k| k.logged).sum::<u64>(), s.seen.len())
+    });
+    c.extra("steps_logged_by_kind", steps.0);
+    c.extra("steps_distinct_threads", json!(steps.1));
+    c.extra("steps_logged_total", json!(steps.2));
+    c.extra("steps_distinct_evaluated", json!(steps.3));
+    c.extra("thread_counts_swept", json!(KS));
+    c.extra("exhaustive", json!(false));
+    if let Some(h) = san {
+        let v = h.join().unwrap_or_else(|_| json!({"status": "inconclusive", "reason": "sanitizer thread panicked"}));
+        judge_sanitizers(&v);
+        c.extra("sanitizers", v);
+    } else {
+        c.extra("sanitizers", json!("not run (thorough tier only)"));
+    }
 }
